@@ -381,6 +381,11 @@ def run(check, an: Analysis):
                        'a root supply starts with its declared levels: %s' % sorted(values))
     # ---- T ------------------------------------------------------------------
     _check_templates(check, an)
+    # the levels are waited for through tracked comparisons: woken exactly when they hold,
+    # and true exactly when they hold *now* (rules shared with C08)
+    from . import c08
+    c08.check_comparison_trigger(check, an, 'S')
+    c08.check_comparison_truth(check, an, 'S')
     check.stats.update(an.stats())
 
 
